@@ -287,8 +287,74 @@ def body_many(ctx, spec):
         ctx.nontrivial(("many", spec))
 
 
+# ---------------------------------------------------------------- the provider of (maps, down-sampling factor)
+def strat_provider():
+    from hypothesis import strategies as st
+    page = st.tuples(st.integers(200, 2400), st.integers(200, 2400), st.integers(4, 300))      # height, width, text height in page px
+    return st.fixed_dictionaries(dict(pages=st.lists(page, min_size=1, max_size=3), max_mp=st.sampled_from([0.05, 0.2, 1.0, 5.0]),
+                                      downsample=st.sampled_from([1, 2, 4, 8]), adaptive=st.sampled_from([True, True, False])))
+
+
+def body_provider(ctx, case):
+    """TorchParseNet.get_maps_with_optimal_resolution with the real resizing / padding code and a stub network whose
+    height channel shows the text at the scale it was given: the factor handed on must be the factor of the returned maps."""
+    import torch
+    from pero_ocr.layout_engines.torch_parsenet import TorchParseNet
+
+    class Probe(TorchParseNet):
+        def get_maps(self, img, downsample):
+            self.cur = float(downsample)
+            with contextlib.redirect_stdout(io.StringIO()):
+                m = TorchParseNet.get_maps(self, img, downsample)
+            self.produced.append((float(downsample), m))
+            return m
+    net = object.__new__(Probe)
+    net.max_megapixels = case["max_mp"]
+    net.device = torch.device("cpu")
+    net.detection_threshold = 0.2
+    net.adaptive_downsample = case["adaptive"]
+    net.init_downsample = net.last_downsample = case["downsample"]
+    net.downsample_line_pixel_adapt_threshold = 100
+    net.min_line_processing_height, net.max_line_processing_height, net.optimal_line_processing_height = 9, 15, 12
+    net.min_downsample, net.max_downsample = 1, 8
+    state = {}
+
+    def stub(x):
+        h, w = int(x.shape[2]), int(x.shape[3])
+        out = torch.zeros((1, 5, h, w))
+        out[0, 2, h // 4:h // 2, :] = 1.0                       # text everywhere in a band
+        out[0, 0] = state["text_px"] / net.cur              # ascender height in map pixels at this scale
+        out[0, 1] = 0.3 * state["text_px"] / net.cur
+        return out, None
+    net.net = stub
+    desc = lambda: "case=%r" % (case,)
+    for h, w, text_px in case["pages"]:
+        state["text_px"] = float(text_px)
+        net.produced = []
+        img = np.zeros((h, w, 3), dtype=np.uint8)
+        maps, ds = ctx.must("map_provider_raises", net.get_maps_with_optimal_resolution, img)
+        ctx.check(len(net.produced) >= 1 and maps is net.produced[-1][1], "returned_maps_not_the_last_computed", desc)
+        made_at = net.produced[-1][0]
+        ctx.check(abs(float(ds) - made_at) <= 1e-9 * made_at, "factor_is_not_that_of_the_returned_maps",
+                  lambda: "page %dx%d text %d px: maps computed at %.4f, factor handed on %.4f (runs at %r); " % (h, w, text_px, made_at, float(ds), [p[0] for p in net.produced]) + desc())
+        bound = math.sqrt(h * w / (case["max_mp"] * 10e5))
+        ctx.check(float(ds) >= bound - 1e-9, "memory_bound_ignored", lambda: "factor %.4f below %.4f; " % (float(ds), bound) + desc())
+        ctx.check(abs(maps.shape[0] - h / float(ds)) <= 1.0 and abs(maps.shape[1] - w / float(ds)) <= 1.0, "map_size_does_not_match_factor",
+                  lambda: "maps %r page %dx%d factor %.4f; " % (maps.shape, h, w, float(ds)) + desc())
+        if len(net.produced) == 2:
+            ctx.event("network_run_again_at_adapted_resolution")
+        first = net.produced[0][0]
+        med = text_px / first
+        if case["adaptive"] and (med > 15 or med < 9) and len(net.produced) == 1:
+            ctx.event("adaptation_wanted_but_within_20_percent_or_bounded")
+            ctx.nontrivial(("provider", repr(case)))
+        elif len(net.produced) == 2:
+            ctx.nontrivial(("provider", repr(case)))
+
+
 UNITS = [
     Unit("parse", "given", body=body_parse, strategy=strat_map(False), quick=400, thorough=8000),
     Unit("many_ridges", "given", body=body_many, strategy=strat_many, quick=8, thorough=64, shards_quick=4),
     Unit("detect", "given", body=body_detect, strategy=strat_map(True), quick=200, thorough=4000),
+    Unit("map_provider", "given", body=body_provider, strategy=strat_provider, quick=300, thorough=4000),
 ]
